@@ -18,7 +18,7 @@ THEOREMS = [
 ASSUMPTIONS = ["no signal source attached (the C API offers none): channel commands yield black, triggers never fire",
                "inside a fade a channel may differ by less than one unit (+2^-10 float slack) from exact linear interpolation"]
 RULE = ("grammar-based programs over all 22 opcodes (nested loops to depth 6, counts {0,1,2,3,255}, forward/backward/out-of-range/"
-        "invalid jumps, clock resets, wait-until in the past and future, zero-length set/fade/sleep, truncated final command, unknown "
+        "invalid jumps (out-of-range ones also in mid-program with commands behind them), clock resets, wait-until in the past and future, zero-length set/fade/sleep, truncated final command, unknown "
         "opcodes, multi-byte varints) in which every loop iteration and jump cycle consumes time; a FRESH player per timestamp; "
         "timestamps {0, every command start and start±1, points inside fades, last event ±, +60000, 2^24-1}; query kinds seek / "
         "colour / pyro. Non-trivial: program with a loop, jump or fade.")
